@@ -337,6 +337,21 @@ def _norm(d):
     return out
 
 
+def _loose(x):
+    """comparison form for values outside a format's domain: map keys as text, tuples as lists, unset == empty"""
+    if x is None or (isinstance(x, (list, tuple, dict, str, bytes)) and len(x) == 0):
+        return None
+    if isinstance(x, dict):
+        return {(k.decode("latin-1") if isinstance(k, bytes) else str(k)): _loose(v) for k, v in x.items()}
+    if isinstance(x, (list, tuple)):
+        return [_loose(v) for v in x]
+    if isinstance(x, (set, frozenset)):
+        return sorted(_loose(v) for v in x)
+    if isinstance(x, float) and x != x:
+        return "nan"
+    return x
+
+
 def _plainish(d):
     """asdict made only of plain data with string keys, i.e. inside every format's domain (equality after a reload is only demanded there)"""
     from mc.ref.fields import is_plain_data
@@ -404,6 +419,10 @@ NATURAL = [
     ("huge-int", {"i": 2 ** 70}, None, "ok"),
     ("bad-xml-key", {"ud": {"$": "d", "v": [["a b", 1]]}}, None, "ok"),
     ("nonstring-dict-key", {"ud": {"$": "d", "v": [[5, 1]]}}, None, "ok"),
+    ("tuple-dict-key", {"ud": {"$": "d", "v": [[{"$": "t", "v": ["a", "b"]}, 1], ["plain", 2]]}}, None, "ok"),
+    ("bytes-dict-key", {"ud": {"$": "d", "v": [[{"$": "y", "v": "6162"}, 1]]}}, None, "ok"),
+    ("tuple-key-in-any", {"any": {"$": "d", "v": [["k", {"$": "d", "v": [[{"$": "t", "v": [1, 2]}, "v"]]}]]}}, None, "ok"),
+    ("tuple-key-in-list", {"any": [{"$": "d", "v": [[{"$": "t", "v": [1]}, "v"], ["s", 1]]}]}, None, "ok"),
     ("lone-surrogate", {"s": "\ud800"}, None, "ok"),
     ("control-char", {"s": "a\x00b"}, None, "ok"),
     ("nan", {"f": {"$": "f", "v": "nan"}}, None, "ok"),
@@ -465,6 +484,20 @@ def _natural(job, ctx):
                     ctx.violation(fp + what, "%s, format %s, destination %s: %s" % (nid, fmt, prior, msg), _case(job, [nid, fmt, prior]))
                 if raised is not None:
                     judge_failure(ctx, bad, dest, before, raised, log)
+                    # a plain retry on the same configuration object must fail the same way (nothing the first attempt
+                    # left behind may let the second one through)
+                    raised2, log2, _, captured2 = attempt_save(cfg, dest, usefmt, **kw)
+                    ctx.transitions += 1
+                    if raised2 is not None:
+                        judge_failure(ctx, lambda w, m: bad("retry-" + w, m), dest, before, raised2, log2)
+                    else:
+                        fresh = cc.Config(schema, key_filename=key)
+                        try:
+                            fresh.load(dest, usefmt)
+                            if V.plain(_loose(cc.asdict(fresh))) != V.plain(_loose(cc.asdict(cfg))):
+                                bad("retry-saved-differently", "the first save failed (%r), the retry returned, and the file loads back differently" % (raised,))
+                        except Exception as exc:  # noqa
+                            bad("retry-saved-unloadable", "the first save failed (%r); the retry returned normally but wrote a file that cannot be loaded: %r" % (raised, exc))
                 else:
                     written = file_id(dest)
                     if written is None or written[0] != captured:
@@ -475,6 +508,10 @@ def _natural(job, ctx):
                         fresh.load(dest, usefmt)
                         if V.plain(_norm(cc.asdict(fresh))) != V.plain(_norm(cc.asdict(cfg))) and _plainish(cc.asdict(cfg)):
                             bad("load-back-differs", "the save returned but the file loads back differently")
+                        elif V.plain(_loose(cc.asdict(fresh))) != V.plain(_loose(cc.asdict(cfg))):
+                            # outside the format's domain a key may be coerced to text, but nothing may silently disappear
+                            bad("entries-lost", "the save returned but entries are missing or changed after loading the file back: %s -> %s"
+                                % (V.show(cc.asdict(cfg), 120), V.show(cc.asdict(fresh), 120)))
                     except Exception as exc:  # noqa
                         bad("saved-file-does-not-load", "the save returned normally but the file it wrote cannot be loaded: %r" % (exc,))
     _histories(job, ctx, schema)
